@@ -42,7 +42,7 @@ var parents = []string{
 
 func alphabets(tier string) alphabet {
 	a := alphabet{
-		Schemes: []string{"http://", "https://", "HTTP://", "ftp://", "", "//"},
+		Schemes: []string{"http://", "https://", "HTTP://", "ftp://", "", "//", "httpx://", "https+x://"}, // the last two: schemes that merely begin like the accepted ones
 		Users:   []string{"", "u:p@"},
 		Hosts: []string{"a.example", "A.Example", "bücher.example", "xn--bcher-kva.example", "1.2.3.4", "127.0.0.1",
 			"127.1", "2130706433", "localhost", "LOCALHOST", "nodot", "[::1]", "0x7f.0.0.1", "localhost.", "a.example."},
